@@ -82,7 +82,10 @@ pub struct PairSpec {
 
 fn std_setup(r: &mut Rng, init: u128, light: bool) -> (Value, Vec<PairSpec>) {
     let dec = |r: &mut Rng| *r.pick(&[0u64, 6, 6, 8, 18, 18, 3]);
-    let denoms = json!([{"denom": "ua", "decimals": dec(r)}, {"denom": "ub", "decimals": dec(r)}, {"denom": "uc", "decimals": dec(r)}]);
+    // contract2 / contract3 are the addresses the two cw20 tokens will get: bank denoms spelled like a
+    // token address exercise every place that could confuse the two kinds of asset
+    let denoms = json!([{"denom": "ua", "decimals": dec(r)}, {"denom": "ub", "decimals": dec(r)}, {"denom": "uc", "decimals": dec(r)},
+                        {"denom": "contract2", "decimals": 6, "register": false}, {"denom": "contract3", "decimals": 6, "register": false}]);
     let tokens = json!([{"name": "tokA", "decimals": dec(r)}, {"name": "tokB", "decimals": dec(r)}]);
     let rates = [nul(), st(0), st(1), st(30_000_000_000_000_000), st(D18 / 2), st(D18 - 1), st(D18), st(3_000_000_000_000_000)];
     let specs = vec![
@@ -466,7 +469,29 @@ fn malformed(r: &mut Rng, t: &mut Trace, w: &mut World, i: usize) {
     let natives: Vec<Value> = [a0.clone(), a1.clone()].iter().filter(|x| is_native(x)).cloned().collect();
     let tokens: Vec<Value> = [a0.clone(), a1.clone()].iter().filter(|x| !is_native(x)).cloned().collect();
     let other_denom = |d: &str| if d == "ua" { "ub" } else { "ua" };
-    let op = match r.below(14) {
+    let op = match r.below(17) {
+        14 if !tokens.is_empty() => {
+            // kind confusion: execute-swap naming a NATIVE denom spelled like the pair's cw20 address, funds attached
+            let o = r.pick(&tokens).clone();
+            let fake = nat(&w.resolve(&id_of(&o)));
+            json!({"op": "pair_swap", "pair": paddr, "caller": who, "offer": asset(&fake, amount), "bp": nul(), "ms": nul(), "to": nul(),
+                   "funds": [[id_of(&fake), st(amount)]]})
+        }
+        15 if !tokens.is_empty() => {
+            // kind confusion on provide: the cw20 side declared as a native coin of the same spelling
+            let fake0 = if is_native(&a0) { a0.clone() } else { nat(&w.resolve(&id_of(&a0))) };
+            let fake1 = if is_native(&a1) { a1.clone() } else { nat(&w.resolve(&id_of(&a1))) };
+            json!({"op": "pair_provide", "pair": paddr, "caller": who, "assets": [asset(&fake0, amount), asset(&fake1, amount + 1)], "tol": nul(), "receiver": nul(),
+                   "funds": funds_for(&[(fake0.clone(), amount), (fake1.clone(), amount + 1)])})
+        }
+        16 if !tokens.is_empty() => {
+            // kind confusion through the router: first hop offers the look-alike native denom
+            let o = r.pick(&tokens).clone();
+            let other = if o == a0 { a1.clone() } else { a0.clone() };
+            let fake = nat(&w.resolve(&id_of(&o)));
+            json!({"op": "router_ops", "caller": who, "operations": [{"offer_info": fake, "ask_info": other}], "min": nul(), "to": nul(),
+                   "funds": [[id_of(&fake), st(amount)]]})
+        }
         0 if !natives.is_empty() => {
             // swap with funds different from the declared amount
             let o = r.pick(&natives).clone();
@@ -636,7 +661,10 @@ pub fn matrix_behaviour(r: &mut Rng, t: &mut Trace) {
         // --- C02 / C09: every entry x delivered asset x named asset x named amount x funds relation
         for delivered in infos.iter() {
             let foreign = if is_native(delivered) { nat("uc") } else { tok(&w.pairs[i].lp) };
-            for named in [infos[0].clone(), infos[1].clone(), foreign.clone()].iter() {
+            // the other pair asset spelled as a native denom (kind confusion), when it is a cw20
+            let other = if *delivered == infos[0] { infos[1].clone() } else { infos[0].clone() };
+            let flipped = if is_native(&other) { foreign.clone() } else { nat(&w.resolve(&id_of(&other))) };
+            for named in [infos[0].clone(), infos[1].clone(), foreign.clone(), flipped.clone()].iter() {
                 for named_amt in [amount, amount + 1, amount - 1] {
                     if is_native(delivered) {
                         for funds_kind in 0..5 {
@@ -644,7 +672,7 @@ pub fn matrix_behaviour(r: &mut Rng, t: &mut Trace) {
                             if !(named == delivered && named_amt == amount) && !r.chance(1, 3) {
                                 continue;
                             }
-                            let d = id_of(delivered);
+                            let d = if *named == flipped && is_native(named) { id_of(named) } else { id_of(delivered) };
                             let funds = match funds_kind {
                                 0 => json!([]),
                                 1 => json!([[d, st(amount - 1)]]),
@@ -854,6 +882,38 @@ pub fn withdraw_behaviour(r: &mut Rng, t: &mut Trace) {
         }
     }
     for _ in 0..2 {
+        inject_withdrawals(r, t, &mut w);
+    }
+    // drain-and-refill: every holder exits completely (only the reserved unit remains), the dust left
+    // behind may be inflated by a donation, then liquidity is provided again
+    for i in 0..np {
+        let lp = tok(&w.pairs[i].lp);
+        for holder in ["alice", "bob", "carol", "mallory"] {
+            let bal = balance(&w, &lp, holder);
+            if bal > 0 {
+                let op = op_withdraw(&w, i, holder, bal);
+                t.run(&mut w, op);
+            }
+        }
+        let (a0, a1) = pair_infos(&w, i);
+        let paddr = w.pairs[i].addr.clone();
+        if r.chance(1, 2) {
+            let info = if r.chance(1, 2) { a0.clone() } else { a1.clone() };
+            let amount = 1 + r.below(1000) as u128;
+            let op = if is_native(&info) {
+                json!({"op": "bank_send", "caller": "carol", "dest": paddr, "coins": [[id_of(&info), st(amount)]]})
+            } else {
+                json!({"op": "cw20_transfer", "token": id_of(&info), "caller": "carol", "dest": paddr, "amount": st(amount)})
+            };
+            t.run(&mut w, op);
+        }
+        let r0 = balance(&w, &a0, &paddr);
+        let r1 = balance(&w, &a1, &paddr);
+        for who in ["alice", "mallory"] {
+            let k = 1 + r.below(1_000_000) as u128;
+            let op = op_provide(&w, i, who, r0.saturating_mul(k).max(1000), r1.saturating_mul(k).max(1000), nul(), nul());
+            t.run(&mut w, op);
+        }
         inject_withdrawals(r, t, &mut w);
     }
 }
